@@ -6,6 +6,7 @@ package main
 // encoding/json, and pushes the encoding through the typed handlers' argument binding.
 
 import (
+	"context"
 	"encoding/json"
 	"fmt"
 	"reflect"
@@ -187,6 +188,14 @@ func c18FieldType(kind string) (reflect.Type, bool) {
 		return reflect.TypeOf(c18WithBasePtr{}), false
 	case "self-rich":
 		return reflect.TypeOf((*c18RichNode)(nil)), false
+	case "anon-str":
+		return reflect.TypeOf(struct {
+			Value string `json:"value"`
+		}{}), false
+	case "anon-int":
+		return reflect.TypeOf(struct {
+			Value int `json:"value"`
+		}{}), false
 	case "deep-shared":
 		return reflect.TypeOf(c18Deep{}), false
 	case "array-byte":
@@ -411,6 +420,54 @@ func c18Run(it c18Item) (o c18Out) {
 	return
 }
 
+// c18TypedSeq: a tool built with NewTypedToolHandler is called several times; every call must receive exactly the value
+// whose encoding it was sent - nothing of an earlier call (omitted fields, map entries) may survive.
+type c18TypedArgs struct {
+	Query  string            `json:"query"`
+	Limit  int               `json:"limit,omitempty"`
+	Labels map[string]string `json:"labels,omitempty"`
+	Tags   []string          `json:"tags,omitempty"`
+	Big    int64             `json:"big,omitempty"`
+}
+
+func c18TypedSeq() (diffs []string) {
+	var got []string
+	h := mcp.NewTypedToolHandler(func(ctx context.Context, req *mcp.CallToolRequest, in c18TypedArgs) (map[string]string, error) {
+		b, _ := json.Marshal(in)
+		got = append(got, string(b))
+		return map[string]string{"ok": "1"}, nil
+	})
+	calls := []string{
+		`{"query":"a","limit":25,"labels":{"x":"1"},"tags":["t1","t2"],"big":9007199254740991}`,
+		`{"query":"b"}`,
+		`{"query":"c","labels":{"y":"2"}}`,
+		`{"query":"d","tags":[]}`,
+		`{"query":"e","limit":0,"big":-9007199254740991}`,
+	}
+	for k, c := range calls {
+		var args map[string]interface{}
+		json.Unmarshal([]byte(c), &args)
+		req := &mcp.CallToolRequest{}
+		req.Params.Name = "typed"
+		req.Params.Arguments = args
+		if _, err := h(context.Background(), req); err != nil {
+			diffs = append(diffs, fmt.Sprintf("call %d: %v", k+1, err))
+			continue
+		}
+		var want c18TypedArgs
+		json.Unmarshal([]byte(c), &want)
+		wb, _ := json.Marshal(want)
+		if len(got) != k+1 {
+			diffs = append(diffs, fmt.Sprintf("call %d: the handler did not run", k+1))
+			continue
+		}
+		if got[k] != string(wb) {
+			diffs = append(diffs, fmt.Sprintf("call %d sent %s, the handler received %s", k+1, c, got[k]))
+		}
+	}
+	return
+}
+
 func normJSONBytes(b []byte) string {
 	var x interface{}
 	if json.Unmarshal(b, &x) != nil {
@@ -427,8 +484,13 @@ func init() {
 		}
 		readInput(&in)
 		out := struct {
-			Outs []c18Out `json:"outs"`
+			Outs     []c18Out `json:"outs"`
+			TypedSeq []string `json:"typed_seq"`
 		}{}
+		out.TypedSeq = c18TypedSeq()
+		if out.TypedSeq == nil {
+			out.TypedSeq = []string{}
+		}
 		for _, it := range in.Items {
 			out.Outs = append(out.Outs, c18Run(it))
 		}
